@@ -291,4 +291,4 @@ pub fn cells(tier: Tier) -> Vec<CellPlan> {
     v
 }
 
-pub const RULE: &str = "mutation-only histories on settled entities (with / without a synchronized relationship, with / without tracking, 1-2 clients with different maximum message sizes) x every hold / drop / reorder pattern of mutate messages and acknowledgements with <= d deviations, junk acknowledgement indices injected at any step, acknowledgement timeout shorter than the delay (never-skipped only) and longer than any delay within the bound with the periodic clean-up running inside the window; per tick the wire is scanned: value in traffic iff edited after the newest acknowledged message containing the entity; after closure three silent ticks and resumption; non-trivial = at least one mutate message delivered";
+pub const RULE: &str = "mutation-only histories on settled entities (with / without a synchronized relationship, with / without tracking, 1-2 clients with different maximum message sizes) x every hold / drop / reorder pattern of mutate messages and acknowledgements with <= d deviations, junk acknowledgement indices injected at any step, acknowledgement timeout shorter than the delay (never-skipped only) and longer than any delay within the bound with the periodic clean-up running inside the window, one acknowledgement arriving two rounds late for a single deviation; per tick the wire is scanned: value in traffic iff edited after the newest acknowledged message containing the entity; after closure three silent ticks and resumption; non-trivial = at least one mutate message delivered";
